@@ -15,3 +15,4 @@ pub mod trap;
 pub mod strmap;
 pub mod contain;
 pub mod cap13;
+pub mod typevar;
